@@ -64,7 +64,7 @@ StateOf(post, pred) ==
               world |-> [e \in Ents |-> NormEnt(post.srv.world[e])],
               remEv |-> pred.srv.remEv, remEvOld |-> pred.srv.remEvOld,
               despawnBuf |-> post.srv.despawnBuf,
-              removalBuf |-> [e \in DOMAIN post.srv.removalBuf |-> ToSet(post.srv.removalBuf[e]) \cap P!Comp],
+              removalBuf |-> [e \in DOMAIN post.srv.removalBuf |-> ToSet(post.srv.removalBuf[e])],
               cl |-> [c \in Clients |-> NormSrvCl(post.srv.cl[c])]],
      net |-> [c \in Clients |-> NormNet(post.net[c])],
      cli |-> [c \in Clients |-> NormCli(post.cli[c], pred.cli[c].lastNotDisc, pred.cli[c].preUsed, pred.cli[c].mt)],
@@ -112,6 +112,8 @@ Predict(cur, r) ==
          [] r.ev = "Insert"   -> Plain(P!InsertF(cur, a.e, a.k), P!InsertEnabled(cur, a.e, a.k))
          [] r.ev = "Remove"   -> Plain(P!RemoveF(cur, a.e, a.k), P!RemoveEnabled(cur, a.e, a.k))
          [] r.ev = "Mutate"   -> Plain(P!MutateF(cur, a.e, a.k), P!MutateEnabled(cur, a.e, a.k))
+         [] r.ev = "Relate"   -> Plain(P!RelateF(cur, a.e, a.p), P!RelateEnabled(cur, a.e, a.p))
+         [] r.ev = "Unrelate" -> Plain(P!UnrelateF(cur, a.e), P!UnrelateEnabled(cur, a.e))
          [] r.ev = "SetVis"   -> Plain(P!SetVisF(cur, a.c, a.e, a.v), P!SetVisEnabled(cur, a.c))
          [] r.ev = "SrvFrame" ->
                 LET pre == P!SrvFramePre(cur, a.tick, a.dt)
@@ -145,13 +147,13 @@ Predict(cur, r) ==
          [] OTHER               -> Plain(cur, TRUE)      \* Quiesce, AtRest: no state change
 
 ----------------------------------------------------------------------------
-VARIABLES l, cur, g, ge, g12, nd, nv
+VARIABLES l, cur, g, ge, g12, nd, nv, vseen
 
-vars == <<l, cur, g, ge, g12, nd, nv>>
+vars == <<l, cur, g, ge, g12, nd, nv, vseen>>
 
 G12Init == [processed |-> [c \in Clients |-> <<>>]]     \* per client: tick |-> mutate messages processed so far
 
-Init == l = 1 /\ cur = P!InitStateE /\ g = P!GhostInit /\ ge = P!EvGhostInit /\ g12 = G12Init /\ nd = 0 /\ nv = 0
+Init == l = 1 /\ cur = P!InitStateE /\ g = P!GhostInit /\ ge = P!EvGhostInit /\ g12 = G12Init /\ nd = 0 /\ nv = 0 /\ vseen = {}
 
 GhostStep(gg, r, pre, obs, ran) ==
     LET sentNow == Len(SelectSeq(r.obs.sent, LAMBDA x : x.ch = "upd" \/ x.ch = "mut"))
@@ -276,7 +278,10 @@ Step ==
                                                           ELSE IF d[1] = "delivered" THEN ToJson(pr.delivered) ELSE "",
                                                  obs |-> IF printable(d) THEN ToJson(FieldVal(obs, d))
                                                          ELSE IF d[1] = "delivered" THEN ToJson(r.obs.delivered) ELSE ""])>>)
-               /\ \A v \in vs : (nv < 10 * MaxPrint) => PrintT(<<"VIOL", ToJson([run |-> r.run, i |-> r.i, ev |-> r.ev, prop |-> v])>>)
+               \* the first violation of each property in each run is reported (nv counts them all)
+               /\ \A v \in vs \ (IF isInit THEN {} ELSE vseen) :
+                    PrintT(<<"VIOL", ToJson([run |-> r.run, i |-> r.i, ev |-> r.ev, prop |-> v])>>)
+               /\ vseen' = (IF isInit THEN {} ELSE vseen) \cup vs
                /\ nd' = nd + Cardinality(ds)
                /\ nv' = nv + Cardinality(vs)
                /\ cur' = obs
